@@ -337,6 +337,14 @@ def run(c, chk):
             else:
                 chk.fail('R12.3', 'unknown-silent', c.where(c.need('cfg_getopt_secidx')), why)
 
+    # ---- R12.12: with the flag the lookup itself says nothing --------------------------
+    chk.rule('R12.12', 'with the flag set the name lookup reports nothing: every diagnostic of the resolver lies behind a test that showed CFGF_IGNORE_UNKNOWN clear')
+    loud = resolver_silent_under_flag(c)
+    if loud is True:
+        chk.ok('R12.12', 'cfg_getopt_secidx: every path that calls cfg_error()', 'has shown the flag clear before the call')
+    else:
+        chk.fail('R12.12', 'resolver-loud-under-flag', loud[0], loud[1], witness=loud[2])
+
     # ---- R12.4 -------------------------------------------------------------------
     from . import c02
     recs = [call for call in model.fn.calls('cfg_parse_internal')]
@@ -450,6 +458,33 @@ def resolver_reports(c):
             return 'cfg_getopt_secidx() can return "not found" with the flag off without a diagnostic (%s)' % ' && '.join(conds[-4:])
     if n == 0:
         return 'no flag-off not-found path found in the resolver'
+    return True
+
+
+def resolver_silent_under_flag(c):
+    """R12.12: True, or (where, text, witness) for a resolver path that reports although the flag was not shown to be clear"""
+    fn = c.need('cfg_getopt_secidx')
+    ex = sym.Explorer(c.modules, max_visits=2, mod_sets=c.mod_sets, max_paths=50000)
+    n = 0
+    for p in ex.explore(fn, neq={('p', 'cfg'): {0}}):
+        errs = p.calls('cfg_error')
+        if not errs:
+            continue
+        n += 1
+        first = min(e.seq for e in errs)
+        off = False
+        for cnd, t, _ in p.assume[:first]:
+            x = pm.describe_cond(cnd) if t else '!' + pm.describe_cond(cnd)
+            if x in ('!cfg->flags has IGNORE_UNKNOWN', 'not(cfg->flags has IGNORE_UNKNOWN)'):
+                off = True
+        if not off:
+            e = [e for e in errs if e.seq == first][0]
+            fmt = e.args[1][1] if len(e.args) > 1 and e.args[1][0] == 'str' else '?'
+            conds = [pm.describe_cond(cnd) if t else '!' + pm.describe_cond(cnd) for cnd, t, _ in p.assume[:first]]
+            return (c.where(e.ins), 'the name lookup reports %r without having looked at CFGF_IGNORE_UNKNOWN: an undeclared item that the parser then skips '
+                    'has already produced a diagnostic' % fmt, ['path condition: ' + ' && '.join(conds[-5:])])
+    if n == 0:
+        raise sym.AnalysisIncomplete('no reporting path found in the resolver')
     return True
 
 
